@@ -4,7 +4,7 @@ import spec.names_spec  # noqa: F401
 
 contract('Typename.to_cpp', returns='str', requires=['wf_tn(self)'], result_is='tn_cpp(self)')
 contract('Typename.__repr__', returns='str', requires=['wf_tn(self)'], result_is='tn_cpp(self)')
-contract('Typename.instantiated_name', returns='str', requires=['wf_tn_plain(self)'], result_is='tn_iname(self)',
+contract('Typename.instantiated_name', returns='str', requires=['wf_tn_plain(self)'], result_is='tn_iname(self)', ensures=["result != ''"],
          loops={0: {'inv': ['res == self.name + tn_iname_fold(self.instantiations, _i)']}})
 contract('Typename.qualified_name', returns='str', requires=['isinstance(self.name, str)'], result_is='tn_qualified(self)')
 
@@ -20,3 +20,29 @@ contract('collect_namespaces',
 PLAIN = 'forall(0, len(self.instantiations), lambda j: wf_tn_plain(self.instantiations[j]))'
 contract('InstantiatedGlobalFunction.to_cpp', returns='str', requires=[PLAIN], result_is='igf_cpp(self)')
 contract('GlobalFunction.to_cpp', returns='str', result_is='self.name')
+
+contract('instantiate_name', params={'original_name': 'str', 'instantiations': 'list[ref:Typename]|tuple[ref:Typename]'}, returns='str',
+         requires=['forall(0, len(instantiations), lambda j: wf_tn_plain(instantiations[j]))'],
+         result_is='original_name + iname_suffix(instantiations, len(instantiations))',
+         loops={0: {'inv': ["''.join(instantiated_names) == iname_suffix(instantiations, _i)", 'len(instantiated_names) == _i'],
+                    'types': {'instantiated_names': 'list[str]'}}})
+
+# ---- construction of a Typename from [ns..., name] (the parser's and the instantiator's entry point)
+contract('Typename.__init__', params={'t': 'list[str]', 'instantiations': 'list[ref:Typename]|tuple[ref:Typename]'},
+         returns='none', requires=['len(t) >= 1'],
+         modifies=['self.name', 'self.namespaces', 'self.instantiations', 'alloc'],
+         ensures=['self.name == t[len(t) - 1]',
+                  "self.namespaces == (t[1:len(t) - 1] if (len(t) > 1 and t[0] == '') else t[0:len(t) - 1])",
+                  'len(self.instantiations) == len(instantiations)',
+                  'forall(0, len(instantiations), lambda j: self.instantiations[j] == instantiations[j])'])
+
+IC_NAME = "(self.original.name + '<' + ', '.join([tn_cpp(i) for i in self.instantiations]) + '>' if self.original.template else self.original.name)"
+contract('InstantiatedClass.cpp_typename', returns='ref:Typename', modifies=['alloc'],
+         ensures=['is_fresh(result)', 'result.name == old(' + IC_NAME + ')', 'result.namespaces == old(ns_chain(self.parent))',
+                  'len(result.instantiations) == 0'])
+contract('InstantiatedClass.to_cpp', returns='str', modifies=['alloc'], result_is='ic_cpp(self)')
+contract('InstantiatedConstructor.to_cpp', returns='str', requires=[PLAIN], result_is='im_cpp(self)')
+contract('Class.namespaces', returns='list[str]', fresh=True, result_is="[''] + ns_chain(self.parent)")
+contract('ForwardDeclaration.namespaces', returns='list[str]', fresh=True, result_is="[''] + ns_chain(self.parent)")
+contract('Enum.namespaces', returns='list[str]', fresh=True, result_is="[''] + ns_chain(self.parent)")
+contract('InstantiatedDeclaration.to_cpp', returns='str', requires=[PLAIN], modifies=['alloc'], result_is='old(idecl_cpp(self))')
